@@ -245,7 +245,7 @@ func sampleMsg(label string, typ uint8, variant int, n uint64) protocol.Message 
 	case label == "localmessagenotification":
 		switch typ {
 		case 0:
-			return localmessagenotification.NewMsgRequestMessages(false)
+			return localmessagenotification.NewMsgRequestMessages(variant == 1)
 		case 1:
 			return localmessagenotification.NewMsgReplyMessagesNonBlocking(nil, false)
 		}
